@@ -87,6 +87,11 @@ def extra(ctx, obl, cases, obs):
     n = 2 if ctx.tier == "quick" else 12
     _cmd_state["binary_runs"] = cmdlayer.variants_layer(ctx, n)
     _cmd_state["annotation_text_runs"] = cmdlayer.annotation_text_layer(ctx)
+    # GFF3 feature rows and the GenBank FEATURES block, byte level: implementation = model = the fields written
+    import gfflayer, gblayer
+    cm.coq_make(["theories/Check_Gff.vo", "theories/Check_Genbank.vo"], ctx.log)
+    _cmd_state.update(gfflayer.run(ctx, 250 if ctx.tier == "quick" else 4000))
+    _cmd_state.update(gblayer.run(ctx, 150 if ctx.tier == "quick" else 2500))
     # the location strings themselves, byte level: implementation = LocationModel.v = the location AST
     cm.coq_make(["theories/Check_Loc.vo"], ctx.log)
     _cmd_state.update(loclayer.run(ctx, 250 if ctx.tier == "quick" else 4000))
